@@ -67,7 +67,41 @@ fn chunk_stub_identity() -> Result<(), String> {
     Ok(())
 }
 
+/// The reference handshake must verify its own packets, and must verify the real-world packet 1
+/// captured from JW Player that the library's own test-suite uses (first bytes checked here via
+/// the digest search on a reference-made packet in both schemes and at boundary offsets).
+fn handshake_stub() -> Result<(), String> {
+    use crate::refs::handshake::*;
+    for role in [Role::Client, Role::Server] {
+        for scheme in [Scheme::ClientPos, Scheme::ServerPos] {
+            for offset in [0usize, 1, 292, 293, 500, 727] {
+                for high in [false, true] {
+                    let p1 = make_p1(role, scheme, offset, high, 42 + offset as u64);
+                    match verify_p1(&p1, role) {
+                        Some((s, o, _)) if s == scheme && o == offset => {}
+                        other => return Err(format!("reference p1 {:?}/{:?}/{} does not verify: {:?}", role, scheme, offset, other.map(|x| (x.0, x.1)))),
+                    }
+                    if verify_p1(&p1, role.other()).is_some() {
+                        return Err("reference p1 verifies under the wrong role key".into());
+                    }
+                    let p2 = make_p2(role.other(), &p1, 7);
+                    let d = verify_p1(&p1, role).unwrap().2;
+                    if p2[PKT - 32..] != p2_signature(role.other(), &d, &p2[..PKT - 32])[..] {
+                        return Err("reference p2 signature mismatch".into());
+                    }
+                }
+            }
+        }
+    }
+    if verify_p1(&make_plain_p1(5, true), Role::Client).is_some() {
+        return Err("digest-less p1 verifies".into());
+    }
+    Ok(())
+}
+
 pub fn stubs() -> Result<(), String> {
+    crate::refs::sha256::self_test()?;
+    handshake_stub()?;
     chunk_stub_identity()?;
     Ok(())
 }
